@@ -22,17 +22,18 @@ the C19 round trip, see `C02_fresh_labels`) -/
 def LabelsOK (l : Label.Labels) : Prop :=
   ∃ b, l.original = some b ∧ Label.labelsFromBytes b = .ok l.labels
 
+/-- field ranges, and the RFC 8415 §11.1 limit of 1..128 octets after the type code -/
 def DUIDOK : DUID → Prop
-  | .llt ht t _ => ht < 65536 ∧ t < 4294967296
-  | .en n _ => n < 4294967296
-  | .ll ht _ => ht < 65536
+  | .llt ht t a => ht < 65536 ∧ t < 4294967296 ∧ a.length ≤ 122
+  | .en n i => n < 4294967296 ∧ i.length ≤ 124
+  | .ll ht a => ht < 65536 ∧ a.length ≤ 126
   | .uuid u => u.length = 16
-  | .opaque t _ => t < 65536 ∧ t ≠ 1 ∧ t ≠ 2 ∧ t ≠ 3 ∧ t ≠ 4
+  | .opaque t d => t < 65536 ∧ t ≠ 1 ∧ t ≠ 2 ∧ t ≠ 3 ∧ t ≠ 4 ∧ 1 ≤ d.length ∧ d.length ≤ 128
 
 def NTPSubOK : NTPSub → Prop
   | .srvAddr ip => IP16 ip
   | .mcAddr ip => IP16 ip
-  | .srvFQDN l => LabelsOK l
+  | .srvFQDN l => LabelsOK l ∧ l.labels.length = 1
   | .generic c _ => c < 65536 ∧ c ≠ 1 ∧ c ≠ 2 ∧ c ≠ 3
 
 /-- every length-prefixed item fits its 16-bit length -/
